@@ -22,9 +22,9 @@ class SpectraVoice(BaseSpectraVoice, Module):
             h.freq_hz, h.volume, h.width, h.type = freq, volume, width, type
         h = self.harmonics[self.harmonic]
         self.h_freq_hz = h.freq_hz
-        self.h_volume = h.volume
-        self.h_width = h.width
-        self.h_type = h.type
+        self.h_volume = kwargs.get("h_volume", h.volume)
+        self.h_width = kwargs.get("h_width", h.width)
+        self.h_type = kwargs.get("h_type", h.type)
 
     def specialized_iff_chunks(self):
         yield from self.harmonic_freqs.chunks()
@@ -56,10 +56,10 @@ class Harmonic:
     def __init__(self, module, index):
         self.module = module
         self.index = index
-        self._freq_hz = 0
-        self._volume = 0
-        self._width = 0
-        self._type = SpectraVoice.HarmonicType.hsin
+        self._freq_hz = module.harmonic_freqs.values[index]
+        self._volume = module.harmonic_volumes.values[index]
+        self._width = module.harmonic_widths.values[index]
+        self._type = module.harmonic_types.values[index]
 
     @property
     def freq_hz(self):
